@@ -1,4 +1,828 @@
-//! Generated-program driver (C05 / C13 / C17). Filled in below.
-use crate::common::*;
+//! Generated-program driver (C05 / C13 / C17): derive definitions are generated from tapes,
+//! written into scratch crates compiled against /repo, then executed against the model (C05,
+//! C13) or judged by the compiler's verdict (C17).
 
-pub fn run_c13(_ctx: &Ctx, _report: &mut Report) {}
+use crate::{common::*, progdef::*};
+use psc_bridge::zoo::Entry;
+use psc_model::{
+	gen::{splitmix, Gen},
+	mutate::gen_input,
+	serde_json::{self, json, Value},
+	stats::*,
+	ty::*,
+	valgen::*,
+};
+use std::{
+	collections::BTreeMap,
+	io::Write,
+	path::{Path, PathBuf},
+	process::{Command, Stdio},
+};
+
+pub const PRELUDE: &str = r#"
+#![allow(warnings)]
+use parity_scale_codec::{Compact, CompactAs, Decode, DecodeWithMemTracking, Encode, HasCompact, MaxEncodedLen};
+use psc_bridge::{model::ty::*, CompactModel, Modeled};
+use std::{collections::BTreeMap, marker::PhantomData};
+
+#[derive(Encode, Decode, DecodeWithMemTracking, CompactAs, MaxEncodedLen, Clone, Debug, PartialEq, Eq, Default)]
+pub struct CW(pub u32);
+impl Modeled for CW {
+	fn ty() -> Ty { Ty::Struct { name: "CW".into(), fields: vec![Field { ty: Ty::U(32), skip: false }] } }
+	fn from_val(v: &Val) -> Self { CW(v.as_tuple()[0].as_u() as u32) }
+	fn to_val(&self) -> Val { Val::Tuple(vec![Val::U(u128::from(self.0))]) }
+}
+impl CompactModel for CW {
+	fn compact_ty() -> Ty { Ty::Struct { name: "Compact<CW>".into(), fields: vec![Field { ty: Ty::Compact(32), skip: false }] } }
+}
+"#;
+
+fn gen_root(property: &str) -> PathBuf {
+	verif_root().join("gen-work").join(property)
+}
+
+fn gen_target() -> PathBuf {
+	verif_root().join("target").join("gen")
+}
+
+fn write_file(p: &Path, s: &str) {
+	if let Some(d) = p.parent() {
+		let _ = std::fs::create_dir_all(d);
+	}
+	// avoid touching unchanged files (keeps cargo fingerprints)
+	if std::fs::read_to_string(p).ok().as_deref() != Some(s) {
+		std::fs::write(p, s).unwrap_or_else(|e| panic!("harness: cannot write {}: {e}", p.display()));
+	}
+}
+
+/// Line ranges (1-based, inclusive) of each definition inside a generated source file.
+pub struct Emitted {
+	pub source: String,
+	pub ranges: Vec<(usize, usize)>,
+}
+
+pub fn emit_runtime_crate(dir: &Path, crate_name: &str, defs: &[Def]) -> Emitted {
+	let mut src = String::from(PRELUDE);
+	let mut ranges = vec![];
+	for d in defs {
+		let start = src.lines().count() + 1;
+		src.push_str(&format!("// ---- {}\n", d.name));
+		src.push_str(&d.source(false));
+		src.push_str(&d.modeled_impl());
+		let end = src.lines().count();
+		ranges.push((start, end));
+	}
+	src.push_str("\nfn entries() -> Vec<psc_bridge::zoo::Entry> {\n\tuse psc_bridge::zoo::Entry;\n\tlet mut v = Vec::new();\n");
+	for d in defs {
+		let t = d.use_type("self");
+		let t = t.trim_start_matches("self::").to_string();
+		let mut e = format!("Entry::new::<{t}>(\"{}\").enc::<{t}>().dec::<{t}>().mem::<{t}>()", d.name);
+		if d.derive_mel {
+			e.push_str(&format!(".mel::<{t}>()"));
+		}
+		src.push_str(&format!("\tv.push({e});\n"));
+	}
+	src.push_str("\tv\n}\n\nfn main() {\n\tstd::process::exit(psc_checks::programs::child_main(entries()));\n}\n");
+	write_file(&dir.join("src/main.rs"), &src);
+	let root = verif_root();
+	write_file(
+		&dir.join("Cargo.toml"),
+		&format!(
+			r#"[package]
+name = "{crate_name}"
+version = "0.1.0"
+edition = "2021"
+
+[dependencies]
+psc-model = {{ path = "{root}/model" }}
+psc-bridge = {{ path = "{root}/bridge" }}
+psc-verif = {{ path = "{root}/harness" }}
+parity-scale-codec = {{ path = "/repo", features = ["derive", "bit-vec", "bytes", "generic-array", "max-encoded-len"] }}
+
+[profile.release]
+opt-level = 1
+debug = 0
+codegen-units = 16
+incremental = true
+overflow-checks = false
+
+[workspace]
+"#,
+			root = root.display()
+		),
+	);
+	let _ = std::fs::copy(root.join("Cargo.lock"), dir.join("Cargo.lock"));
+	Emitted { source: src, ranges }
+}
+
+#[derive(Debug, Clone)]
+pub struct CompileError {
+	pub message: String,
+	pub lines: Vec<usize>,
+}
+
+/// Run cargo with JSON diagnostics; returns (success, errors with every line of `file_suffix` they touch).
+pub fn cargo_json(dir: &Path, args: &[&str], file_suffix: &str) -> (bool, Vec<CompileError>, String) {
+	let out = Command::new("cargo")
+		.args(args)
+		.arg("--message-format=json")
+		.current_dir(dir)
+		.env("CARGO_TARGET_DIR", gen_target())
+		.env("CARGO_NET_OFFLINE", "true")
+		.stdout(Stdio::piped())
+		.stderr(Stdio::piped())
+		.output()
+		.unwrap_or_else(|e| panic!("harness: cannot run cargo: {e}"));
+	let mut errors = vec![];
+	fn collect(span: &Value, suffix: &str, lines: &mut Vec<usize>) {
+		if span.is_null() {
+			return;
+		}
+		if span["file_name"].as_str().map_or(false, |f| f.ends_with(suffix)) {
+			if let Some(l) = span["line_start"].as_u64() {
+				lines.push(l as usize);
+			}
+		}
+		collect(&span["expansion"]["span"], suffix, lines);
+	}
+	fn walk(msg: &Value, suffix: &str, lines: &mut Vec<usize>) {
+		if let Some(spans) = msg["spans"].as_array() {
+			for s in spans {
+				collect(s, suffix, lines);
+			}
+		}
+		if let Some(children) = msg["children"].as_array() {
+			for c in children {
+				walk(c, suffix, lines);
+			}
+		}
+	}
+	for line in String::from_utf8_lossy(&out.stdout).lines() {
+		let Ok(v) = serde_json::from_str::<Value>(line) else { continue };
+		if v["reason"] != "compiler-message" {
+			continue;
+		}
+		let m = &v["message"];
+		if m["level"] != "error" {
+			continue;
+		}
+		let mut lines = vec![];
+		walk(m, file_suffix, &mut lines);
+		lines.sort();
+		lines.dedup();
+		errors.push(CompileError { message: m["message"].as_str().unwrap_or("").to_string(), lines });
+	}
+	let stderr_tail: String = String::from_utf8_lossy(&out.stderr).lines().rev().take(12).collect::<Vec<_>>().join("\n");
+	(out.status.success(), errors, stderr_tail)
+}
+
+pub fn attribute(errors: &[CompileError], ranges: &[(usize, usize)]) -> BTreeMap<usize, Vec<String>> {
+	let mut by_def: BTreeMap<usize, Vec<String>> = BTreeMap::new();
+	for e in errors {
+		for l in &e.lines {
+			if let Some(i) = ranges.iter().position(|(a, b)| a <= l && l <= b) {
+				let v = by_def.entry(i).or_default();
+				if !v.contains(&e.message) {
+					v.push(e.message.clone());
+				}
+			}
+		}
+	}
+	by_def
+}
+
+// ---------------------------------------------------------------------------------------------
+// child side (runs inside the generated program)
+
+fn emit(line: &str) {
+	let mut o = std::io::stdout().lock();
+	let _ = o.write_all(line.as_bytes());
+	let _ = o.write_all(b"\n");
+	let _ = o.flush();
+}
+
+fn env_u64(k: &str, default: u64) -> u64 {
+	std::env::var(k).ok().and_then(|s| s.parse().ok()).unwrap_or(default)
+}
+
+/// All checks of one generated type; returns the first violation.
+fn check_type(e: &Entry, idx: usize, seed: u64, values: u64, stats: &mut Stats) -> Option<Violation> {
+	let has_value = match &e.ty {
+		Ty::Enum { variants, .. } => !variants.is_empty(),
+		_ => true,
+	};
+	let mut first: Option<Violation> = None;
+	let mut note = |r: Result<(), Violation>, first: &mut Option<Violation>| {
+		if let Err(v) = r {
+			first.get_or_insert(v);
+		}
+	};
+	for i in 0..values {
+		let mut tape = vec![0u8; 384];
+		splitmix(seed ^ ((idx as u64) << 32) ^ i.wrapping_mul(0x9E37_79B9)).fill(&mut tape);
+		if i == 0 {
+			tape.iter_mut().for_each(|b| *b = 0);
+		}
+		let mut g = Gen::new(&tape);
+		if has_value {
+			let mut cfg = GenCfg {
+				budget: 300,
+				allow_skipped_variants: true,
+				maximize: e.mel.is_some() && i % 3 == 1,
+				..GenCfg::default()
+			};
+			let v = gen_val(&e.ty, &mut g, &mut cfg);
+			let skipped = contains_skipped_variant(&e.ty, &v);
+			emit(&format!("CASE {} value {}", e.name, v.brief(160)));
+			note(crate::c01::check_value(e, &v, stats), &mut first);
+			note(crate::c07::check_entry_points(e, &v, stats), &mut first);
+			if skipped {
+				stats.class("value in a skipped variant (encodes to nothing)");
+			} else {
+				let suffix = crate::c02::gen_suffix(&mut g, e);
+				note(crate::c02::check_roundtrip(e, &v, &suffix, stats), &mut first);
+				let bytes = psc_model::enc::ref_encode(&e.ty, &v);
+				note(crate::c12::check_limits(e, &bytes, "valid", stats), &mut first);
+			}
+			if e.mel.is_some() {
+				note(crate::c13::check_lengths(e, &v, stats), &mut first);
+			}
+			let has_encodable = match &e.ty {
+				Ty::Enum { variants, .. } => variants.iter().any(|v| v.index.is_some()),
+				_ => true,
+			};
+			let (bytes, family) = if has_encodable { gen_input(&e.ty, &mut g, 64) } else { (g.bytes(3), "random") };
+			note(crate::c03::check_bytes(e, &bytes, family, stats), &mut first);
+		}
+	}
+	// enums: every one of the 256 index bytes, followed by plausible payload
+	if let Ty::Enum { variants, .. } = &e.ty {
+		for b in 0..=255u8 {
+			let mut bytes = vec![b];
+			if let Some(i) = variants.iter().position(|v| v.index == Some(b)) {
+				let fields: Vec<Val> = {
+					let tape = [b; 64];
+					let mut g = Gen::new(&tape);
+					variants[i].fields.iter().map(|f| gen_val(&f.ty, &mut g, &mut GenCfg { budget: 20, ..GenCfg::default() })).collect()
+				};
+				bytes = psc_model::enc::ref_encode(&e.ty, &Val::Variant(i, fields));
+			} else {
+				bytes.extend_from_slice(&[1, 2, 3, 4, 5, 6, 7, 8]);
+			}
+			note(crate::c03::check_bytes(e, &bytes, "index-byte-sweep", stats), &mut first);
+		}
+		stats.class("enum: all 256 index bytes");
+	}
+	first
+}
+
+pub fn child_main(entries: Vec<Entry>) -> i32 {
+	psc_model::runner::install_quiet_panic_hook();
+	let seed = env_u64("VERIF_SEED", 1);
+	let values = env_u64("GEN_VALUES", 40);
+	let only = std::env::var("GEN_ONLY").ok();
+	let skip: Vec<String> = std::env::var("GEN_SKIP").ok().map(|s| s.split(',').map(|x| x.to_string()).collect()).unwrap_or_default();
+	let mut stats = Stats::default();
+	for (idx, e) in entries.iter().enumerate() {
+		if only.as_deref().map_or(false, |o| o != e.name) || skip.iter().any(|s| s == e.name) {
+			continue;
+		}
+		emit(&format!("BEGIN {}", e.name));
+		let r = std::panic::catch_unwind(std::panic::AssertUnwindSafe(|| check_type(e, idx, seed, values, &mut stats)));
+		match r {
+			Ok(None) => {},
+			Ok(Some(v)) => emit(&format!("F {}", json!({"type": e.name, "sig": v.sig, "detail": v.detail}))),
+			Err(_) => emit(&format!("X {}", json!({"type": e.name, "panic": psc_model::runner::take_panic_message()}))),
+		}
+		emit(&format!("END {}", e.name));
+	}
+	emit(&format!("S {}", stats.to_json()));
+	emit("D");
+	0
+}
+
+// ---------------------------------------------------------------------------------------------
+// parent side: C05 / C13
+
+pub struct RunOut {
+	pub stats: Stats,
+	pub failures: Vec<(String, String, String)>, // (type, sig, detail)
+	pub broken: Vec<String>,
+	pub crashed: Option<(String, String)>, // (type, last case line)
+	pub done: bool,
+}
+
+fn run_program(exe: &Path, seed: u64, values: u64, only: Option<&str>, skip: &[String]) -> RunOut {
+	let mut cmd = Command::new(exe);
+	cmd.env("VERIF_SEED", seed.to_string()).env("GEN_VALUES", values.to_string()).stdout(Stdio::piped()).stderr(Stdio::piped());
+	if let Some(o) = only {
+		cmd.env("GEN_ONLY", o);
+	}
+	if !skip.is_empty() {
+		cmd.env("GEN_SKIP", skip.join(","));
+	}
+	let out = cmd.output().unwrap_or_else(|e| panic!("harness: cannot run {}: {e}", exe.display()));
+	let mut r = RunOut { stats: Stats::default(), failures: vec![], broken: vec![], crashed: None, done: false };
+	let mut open: Option<String> = None;
+	let mut last_case = String::new();
+	for line in String::from_utf8_lossy(&out.stdout).lines() {
+		if let Some(n) = line.strip_prefix("BEGIN ") {
+			open = Some(n.to_string());
+			last_case.clear();
+		} else if line.starts_with("END ") {
+			open = None;
+		} else if let Some(c) = line.strip_prefix("CASE ") {
+			last_case = c.to_string();
+		} else if let Some(j) = line.strip_prefix("F ") {
+			if let Ok(v) = serde_json::from_str::<Value>(j) {
+				r.failures.push((
+					v["type"].as_str().unwrap_or("").to_string(),
+					v["sig"].as_str().unwrap_or("").to_string(),
+					v["detail"].as_str().unwrap_or("").to_string(),
+				));
+			}
+		} else if let Some(j) = line.strip_prefix("X ") {
+			r.broken.push(j.to_string());
+		} else if let Some(j) = line.strip_prefix("S ") {
+			if let Ok(v) = serde_json::from_str::<Value>(j) {
+				r.stats = Stats::from_json(&v);
+			}
+		} else if line == "D" {
+			r.done = true;
+		}
+	}
+	if !r.done || !out.status.success() {
+		match open {
+			Some(t) => r.crashed = Some((t, format!("{last_case} — exit {} — {}", out.status, String::from_utf8_lossy(&out.stderr).lines().rev().take(3).collect::<Vec<_>>().join(" | ")))),
+			None =>
+				if !r.done {
+					r.broken.push(format!("generated program ended with {} outside any type", out.status));
+				},
+		}
+	}
+	r
+}
+
+fn defs_for(ctx: &Ctx, count: usize, mel_bias: bool, salt: u64) -> Vec<Def> {
+	let mut defs: Vec<Def> = vec![];
+	let mut prior: Vec<String> = vec![];
+	for i in 0..count {
+		let mut tape = vec![0u8; 512];
+		splitmix(ctx.seed ^ salt ^ ((i as u64) << 20)).fill(&mut tape);
+		let mut g = Gen::new(&tape);
+		let mel = if mel_bias { !g.chance(24) } else { g.chance(72) };
+		let d = gen_valid_def(&mut g, &format!("D{i}"), mel, &prior);
+		let usable_as_field = d.generics.is_empty() &&
+			match &d.body {
+				Body::Enum { variants } => variants.iter().any(|v| !v.skip) && variants.len() <= 8,
+				_ => true,
+			};
+		if usable_as_field && prior.len() < 12 {
+			prior.push(d.name.clone());
+		}
+		defs.push(d);
+	}
+	// the special shapes are always present
+	let unit = |name: &str, variants: Vec<VarDef>| Def {
+		name: name.to_string(),
+		body: Body::Enum { variants },
+		generics: vec![],
+		inst: vec![],
+		transparent: false,
+		repr_int: None,
+		derive_mel: true,
+		derive_compact_as: false,
+		dumb_trait_bound: false,
+	};
+	let var = |skip: bool| VarDef { index_attr: None, discriminant: None, skip, fields: vec![], tuple: false };
+	defs.push(unit("AllSkipped1", vec![var(true)]));
+	defs.push(unit("AllSkipped3", vec![var(true), var(true), var(true)]));
+	defs.push(unit("Never", vec![]));
+	defs.push(unit("SkipFirst", vec![var(true), var(false), var(true), var(false)]));
+	defs
+}
+
+fn crash_signature(d: &Def) -> String {
+	if d.is_all_skipped_enum() {
+		"C05/encode-crash/all-variants-skipped".to_string()
+	} else {
+		format!("C05/crash/{}", d.feature_labels().first().cloned().unwrap_or_default())
+	}
+}
+
+fn program_replay(d: &Def, seed: u64, values: u64, what: &str) -> Value {
+	json!({
+		"kind": "program", "what": what, "definition": d.source(false), "model": d.modeled_impl(), "name": d.name,
+		"use_type": d.use_type("self").trim_start_matches("self::"), "derive_mel": d.derive_mel, "seed": seed, "values": values,
+	})
+}
+
+/// Build + run one batch of valid definitions; used by C05 (all checks) and C13 (MEL-biased).
+pub fn run_runtime_batch(ctx: &Ctx, report: &mut Report, property: &str, mel_bias: bool, count: usize, values: u64, salt: u64) {
+	let mut defs = defs_for(ctx, count, mel_bias, salt);
+	// generator self-check: every definition must be valid by the reference predicate
+	for d in &defs {
+		if let Some(r) = reject_reason(d) {
+			report.broken.push(format!("generator produced an invalid definition ({r}): {}", d.source(false)));
+			return;
+		}
+	}
+	let dir = gen_root(property).join(format!("batch{salt}"));
+	let crate_name = format!("psc-gen-{}-{salt}", property.to_lowercase());
+	let mut rejected: Vec<(Def, Vec<String>)> = vec![];
+	let mut built = false;
+	for _round in 0..4 {
+		let em = emit_runtime_crate(&dir, &crate_name, &defs);
+		let (ok, errors, tail) = cargo_json(&dir, &["build", "--release", "--offline"], "src/main.rs");
+		if ok {
+			built = true;
+			break;
+		}
+		let by_def = attribute(&errors, &em.ranges);
+		if by_def.is_empty() {
+			report.broken.push(format!(
+				"generated crate does not build and no error is attributable to a definition: {} | {tail}",
+				errors.iter().map(|e| e.message.clone()).take(3).collect::<Vec<_>>().join(" | ")
+			));
+			return;
+		}
+		// drop the suspects (and whatever used them as a field type), confirm each alone later
+		let bad: Vec<String> = by_def.keys().map(|i| defs[*i].name.clone()).collect();
+		for (i, msgs) in by_def.iter().rev() {
+			rejected.push((defs[*i].clone(), msgs.clone()));
+			defs.remove(*i);
+		}
+		defs.retain(|d| {
+			let uses = |fs: &[FieldDef]| fs.iter().any(|f| bad.contains(&f.ty));
+			!match &d.body {
+				Body::Struct { fields, .. } => uses(fields),
+				Body::Enum { variants } => variants.iter().any(|v| uses(&v.fields)),
+				Body::Union => false,
+			}
+		});
+	}
+	// a valid definition that does not compile: confirm alone before reporting
+	for (d, msgs) in rejected {
+		let solo = gen_root(property).join("solo");
+		let mut single = d.clone();
+		// field types naming other generated definitions cannot be compiled alone: report as inconclusive
+		let em = emit_runtime_crate(&solo, &format!("psc-gen-{}-solo", property.to_lowercase()), std::slice::from_ref(&single));
+		let (ok, errors, _) = cargo_json(&solo, &["build", "--release", "--offline"], "src/main.rs");
+		let _ = em;
+		if !ok && !errors.is_empty() {
+			single.name = d.name.clone();
+			let feature = d.feature_labels().into_iter().find(|l| l.contains("field") || l.contains("enum") || l.contains("generic")).unwrap_or_default();
+			report.direct(
+				&ctx.known,
+				Violation::new(
+					format!("C05/valid-definition-rejected/{feature}"),
+					format!("a definition free of the listed faults does not compile:\n{}\ncompiler: {}", d.source(false), errors.iter().map(|e| e.message.clone()).take(3).collect::<Vec<_>>().join(" | ")),
+				),
+				program_replay(&d, ctx.seed, values, "compile"),
+			);
+		} else {
+			report.broken.push(format!("definition {} failed in the batch ({}) but compiles alone", d.name, msgs.join(" | ")));
+		}
+	}
+	if !built {
+		report.broken.push("generated crate still does not build after removing the rejected definitions".into());
+		return;
+	}
+	let exe = gen_target().join("release").join(&crate_name);
+	let mut skip: Vec<String> = vec![];
+	let mut found: Vec<(usize, Violation, Value)> = vec![];
+	for _round in 0..6 {
+		let out = run_program(&exe, ctx.seed, values, None, &skip);
+		report.stats.merge(out.stats);
+		for b in out.broken {
+			report.broken.push(format!("generated program: {b}"));
+		}
+		for (ty, sig, detail) in out.failures {
+			// each property judges its own clause: declared lengths belong to C13, everything else to C05
+			if (property == "C13") != sig.starts_with("C13/") {
+				report.stats.exclude("failure-belonging-to-the-other-program-property");
+				continue;
+			}
+			if let Some(d) = defs.iter().find(|d| d.name == ty) {
+				let tail = sig.split_once('/').map(|(_, t)| t.to_string()).unwrap_or(sig.clone());
+				let sig = if property == "C13" || sig.starts_with("C13/") { sig.clone() } else { format!("C05/{tail}") };
+				found.push((
+					d.source(false).len(),
+					Violation::new(sig, format!("{detail}\ndefinition:\n{}", d.source(false))),
+					program_replay(d, ctx.seed, values, "run"),
+				));
+			}
+		}
+		match out.crashed {
+			None => break,
+			Some((ty, how)) => {
+				let Some(d) = defs.iter().find(|d| d.name == ty).cloned() else {
+					report.broken.push(format!("generated program died in unknown type {ty}"));
+					break;
+				};
+				// strict re-run of that definition alone: the crash must reproduce
+				let again = run_program(&exe, ctx.seed, values, Some(&ty), &[]);
+				if property == "C13" {
+					// termination of encoding is C05's clause
+					report.stats.exclude("crashing-definition-skipped-(C05's clause)");
+				} else if again.crashed.is_some() {
+					found.push((
+						d.source(false).len(),
+						Violation::new(
+							crash_signature(&d),
+							format!("the generated program dies while exercising this definition (reproduced alone): {how}\ndefinition:\n{}", d.source(false)),
+						),
+						program_replay(&d, ctx.seed, values, "run"),
+					));
+				} else {
+					report.broken.push(format!("generated program died in {ty} ({how}) but not when that definition runs alone"));
+				}
+				skip.push(ty);
+			},
+		}
+	}
+	// one replay per root cause: the smallest definition exhibiting it
+	found.sort_by_key(|f| f.0);
+	for (_, v, doc) in found {
+		report.direct(&ctx.known, v, doc);
+	}
+	// evidence: programs, attribute histogram
+	let mut distinct = std::collections::BTreeSet::new();
+	for d in &defs {
+		for l in d.feature_labels() {
+			report.stats.class(&format!("def:{l}"));
+		}
+		let nontrivial = d.feature_labels().iter().any(|l| l.contains("field") || l == "generic" || l.contains("index") || l.contains("discriminant") || l.contains("skipped")) ||
+			d.index_source_count() >= 2;
+		if nontrivial && distinct.insert(d.normalised()) {
+			report.stats.nontrivial(&("def", d.normalised()));
+		}
+	}
+	let n = report.stats.extra.get("programs").and_then(|v| v.as_u64()).unwrap_or(0) + defs.len() as u64;
+	report.stats.extra.insert("programs".into(), json!(n));
+	report.stats.extra.insert("values_per_program".into(), json!(values));
+	for d in defs.iter().take(4) {
+		let text: String = d.source(false).chars().take(500).collect();
+		report.stats.samples.insert(0, json!({"program": text}));
+	}
+}
+
+pub fn run_c13(ctx: &Ctx, report: &mut Report) {
+	let (count, values) = if ctx.tier == Tier::Thorough { (160, 120) } else { (40, 40) };
+	run_runtime_batch(ctx, report, "C13", true, count, values, 13);
+}
+
+pub fn run_c05(ctx: &Ctx) -> (Level, Report) {
+	let mut report = Report::default();
+	let (batches, count, values): (u64, usize, u64) = if ctx.tier == Tier::Thorough { (8, 160, 120) } else { (1, 70, 40) };
+	for b in 0..batches {
+		run_runtime_batch(ctx, &mut report, "C05", false, count, values, 500 + b);
+	}
+	(
+		Level {
+			level: "exploration",
+			rule: "generated valid derive definitions (shape x field attributes skip/compact/encoded_as x generics x nesting of earlier definitions x \
+repr(transparent) with zero-sized companions x index attribute / explicit discriminant / implicit position / skipped variants, 255- and 256-variant \
+enums, all-variants-skipped, empty and single-non-skipped-field cases, CompactAs wrappers, dumb_trait_bound), each paired with an impl of the model \
+written from the definition; compiled in one crate against /repo and executed: encoding == reference layout (skipped variants encode to nothing, \
+termination observed through begin/end markers and a strict re-run), all entry points, round trip, decoder vs reference decoder on mutated strings, \
+all 256 index bytes per enum, memory-limit threshold, declared max length. A valid definition that fails to compile is confirmed alone and reported. \
+Non-trivial = definition with an attribute, generic parameter, skipped variant or >= 2 index sources; distinct by normalised text.",
+			assumptions: vec!["program space is the grammar of DESIGN §4.3", "the definition-derived model states the documented layout"],
+		},
+		report,
+	)
+}
+
+// ---------------------------------------------------------------------------------------------
+// C17: the compiler's verdict on generated definitions
+
+fn emit_check_crate(dir: &Path, name: &str, defs: &[Def]) -> Emitted {
+	let mut src = String::from(
+		"#![allow(warnings)]\nuse parity_scale_codec::{Compact, CompactAs, Decode, Encode, HasCompact};\nuse std::marker::PhantomData;\n",
+	);
+	let mut ranges = vec![];
+	for d in defs {
+		let start = src.lines().count() + 1;
+		src.push_str(&format!("// ---- {}\n", d.name));
+		src.push_str(&d.source(true));
+		let end = src.lines().count();
+		ranges.push((start, end));
+	}
+	write_file(&dir.join("src/lib.rs"), &src);
+	write_file(
+		&dir.join("Cargo.toml"),
+		&format!(
+			"[package]\nname = \"{name}\"\nversion = \"0.1.0\"\nedition = \"2021\"\n\n[dependencies]\nparity-scale-codec = {{ path = \"/repo\", features = [\"derive\"] }}\n\n[workspace]\n"
+		),
+	);
+	let _ = std::fs::copy(verif_root().join("Cargo.lock"), dir.join("Cargo.lock"));
+	Emitted { source: src, ranges }
+}
+
+/// Compile `defs` in one crate and return, per definition, the attributed error messages.
+fn verdicts(dir: &Path, name: &str, defs: &[Def]) -> (BTreeMap<usize, Vec<String>>, Vec<CompileError>) {
+	let em = emit_check_crate(dir, name, defs);
+	let (_ok, errors, _) = cargo_json(dir, &["check", "--offline"], "src/lib.rs");
+	(attribute(&errors, &em.ranges), errors)
+}
+
+pub fn run_c17(ctx: &Ctx) -> (Level, Report) {
+	let mut report = Report::default();
+	let n_random: usize = if ctx.tier == Tier::Thorough { 2500 } else { 300 };
+	let mut invalid: Vec<Def> = vec![];
+	let mut valid: Vec<Def> = vec![];
+	let mut seen = std::collections::BTreeSet::new();
+	let mut add = |d: Def, invalid: &mut Vec<Def>, valid: &mut Vec<Def>| {
+		if !seen.insert(d.normalised()) {
+			return;
+		}
+		if reject_reason(&d).is_some() {
+			invalid.push(d);
+		} else {
+			valid.push(d);
+		}
+	};
+	for i in 0..n_random {
+		let mut tape = vec![0u8; 256];
+		splitmix(ctx.seed ^ 0xC17 ^ ((i as u64) << 16)).fill(&mut tape);
+		let mut g = Gen::new(&tape);
+		let d = gen_c17_enum(&mut g, &format!("E{i}"));
+		if reject_reason(&d).is_some() {
+			let mut t = valid_twin(&d);
+			t.name = format!("T{i}");
+			add(t, &mut invalid, &mut valid);
+		}
+		add(d, &mut invalid, &mut valid);
+	}
+	for d in c17_fixed_set() {
+		if reject_reason(&d).is_some() {
+			let mut t = valid_twin(&d);
+			t.name = format!("{}Twin", d.name);
+			add(t, &mut invalid, &mut valid);
+		}
+		add(d, &mut invalid, &mut valid);
+	}
+	// the twins must really be valid by the reference predicate (generator self-check)
+	for d in &valid {
+		if let Some(r) = reject_reason(d) {
+			report.broken.push(format!("generator: twin still invalid ({r}): {}", d.source(true)));
+			return (c17_level(), report);
+		}
+	}
+	// invalid programs are compiled in chunks: a crate with very many errors may hit rustc's error limit
+	let root = gen_root("C17");
+	let mut disagreements: Vec<(Def, bool, String)> = vec![]; // (def, expected_reject, note)
+	let chunk = 60;
+	for (ci, defs) in invalid.chunks(chunk).enumerate() {
+		let (by_def, _) = verdicts(&root.join(format!("reject{ci}")), &format!("psc-c17-reject{ci}"), defs);
+		for (i, d) in defs.iter().enumerate() {
+			report.stats.eval();
+			let reason = reject_reason(d).unwrap();
+			report.stats.class(&format!("expected-reject:{reason}"));
+			match by_def.get(&i) {
+				Some(msgs) if msgs.iter().any(|m| !m.trim().is_empty()) => {},
+				_ => disagreements.push((d.clone(), true, "no error attributed in the batch".into())),
+			}
+		}
+	}
+	for (ci, defs) in valid.chunks(chunk * 2).enumerate() {
+		let (by_def, errors) = verdicts(&root.join(format!("accept{ci}")), &format!("psc-c17-accept{ci}"), defs);
+		for (i, d) in defs.iter().enumerate() {
+			report.stats.eval();
+			report.stats.class("expected-accept");
+			if let Some(msgs) = by_def.get(&i) {
+				disagreements.push((d.clone(), false, msgs.join(" | ")));
+			}
+		}
+		if by_def.is_empty() && !errors.is_empty() {
+			report.broken.push(format!("all-valid batch has unattributable errors: {}", errors[0].message));
+		}
+	}
+	// every disagreement is re-compiled alone before being reported
+	report.stats.extra.insert("disagreements_checked".into(), json!(disagreements.len()));
+	for (k, (d, expected_reject, note)) in disagreements.into_iter().enumerate() {
+		let (by_def, errors) = verdicts(&root.join("solo"), "psc-c17-solo", std::slice::from_ref(&d));
+		let rejected = !errors.is_empty();
+		let _ = (by_def, k);
+		if expected_reject && !rejected {
+			let reason = reject_reason(&d).unwrap();
+			report.direct(
+				&ctx.known,
+				Violation::new(
+					format!("C17/accepted-invalid/{reason}"),
+					format!("a definition that must be rejected ({reason}) compiles without error:\n{}", d.source(true)),
+				),
+				json!({"kind": "c17-program", "definition": d.source(true), "expected": "reject", "reason": reason}),
+			);
+		} else if !expected_reject && rejected {
+			report.direct(
+				&ctx.known,
+				Violation::new(
+					"C17/rejected-valid",
+					format!(
+						"a definition free of the listed faults is rejected: {}\n{}",
+						errors.iter().map(|e| e.message.clone()).take(2).collect::<Vec<_>>().join(" | "),
+						d.source(true)
+					),
+				),
+				json!({"kind": "c17-program", "definition": d.source(true), "expected": "accept"}),
+			);
+		} else {
+			// batching artefact: the isolated verdict agrees with the reference
+			report.stats.class("batch-artefact-resolved-in-isolation");
+			let _ = note;
+		}
+	}
+	for d in invalid.iter().chain(valid.iter()) {
+		if d.index_source_count() >= 2 || matches!(&d.body, Body::Enum { variants } if variants.iter().any(|v| v.skip)) {
+			report.stats.nontrivial(&d.normalised());
+		}
+	}
+	report.stats.extra.insert("programs".into(), json!(invalid.len() + valid.len()));
+	report.stats.extra.insert("expected_reject".into(), json!(invalid.len()));
+	report.stats.extra.insert("expected_accept".into(), json!(valid.len()));
+	for d in invalid.iter().take(3).chain(valid.iter().take(2)) {
+		let text: String = d.source(true).chars().take(400).collect();
+		report.stats.samples.push(json!({"program": text, "reference_verdict": reject_reason(d).unwrap_or("accept")}));
+	}
+	(c17_level(), report)
+}
+
+fn c17_level() -> Level {
+	Level {
+		level: "exploration",
+		rule: "generated enum definitions over {index attribute k, explicit discriminant k, implicit position} x optional skip with k in 0..=300 biased to \
+collisions and to 254/255/256/300, 1..8 variants and 255/256/257 non-skipped variants (with and without extra skipped ones), plus the finite set of \
+attribute conflicts (skip/compact/encoded_as pairs and triples, as separate attributes and inside one, in multi-field structs, single-field structs and \
+enum variants), unions and CompactAs on enum / 0 / 1 / 2 non-skipped fields; every invalid program is paired with a minimally different valid twin; \
+all derive Encode and Decode together. Oracle: a reference predicate over the definition vs the compiler's verdict (cargo check, JSON diagnostics \
+attributed to definitions through span expansion chains); every disagreement is re-compiled alone before being reported. Non-trivial = definition \
+mixing >= 2 index sources or containing a skipped variant; distinct by normalised text.",
+		assumptions: vec!["generated discriminants are distinct at the Rust level so the verdict is the codec's, not rustc's E0081"],
+	}
+}
+
+/// Replay of a program violation: rebuild a one-definition crate from the saved source.
+pub fn replay_program(ctx: &Ctx, doc: &Value) -> Option<Result<(), Violation>> {
+	match doc["kind"].as_str()? {
+		"c17-program" => {
+			let dir = gen_root("C17").join("replay");
+			let src = format!(
+				"#![allow(warnings)]\nuse parity_scale_codec::{{Compact, CompactAs, Decode, Encode, HasCompact}};\nuse std::marker::PhantomData;\n{}",
+				doc["definition"].as_str()?
+			);
+			write_file(&dir.join("src/lib.rs"), &src);
+			write_file(
+				&dir.join("Cargo.toml"),
+				"[package]\nname = \"psc-c17-replay\"\nversion = \"0.1.0\"\nedition = \"2021\"\n\n[dependencies]\nparity-scale-codec = { path = \"/repo\", features = [\"derive\"] }\n\n[workspace]\n",
+			);
+			let _ = std::fs::copy(verif_root().join("Cargo.lock"), dir.join("Cargo.lock"));
+			let (_, errors, _) = cargo_json(&dir, &["check", "--offline"], "src/lib.rs");
+			let rejected = !errors.is_empty();
+			let expect_reject = doc["expected"] == "reject";
+			Some(if rejected == expect_reject {
+				Ok(())
+			} else {
+				Err(Violation::new(
+					doc["signature"].as_str().unwrap_or("C17").to_string(),
+					format!("expected {}, compiler {}: {}", doc["expected"], if rejected { "rejects" } else { "accepts" }, errors.iter().map(|e| e.message.clone()).take(2).collect::<Vec<_>>().join(" | ")),
+				))
+			})
+		},
+		"program" => {
+			let dir = gen_root(ctx.property).join("replay");
+			let name = doc["name"].as_str()?;
+			let t = doc["use_type"].as_str()?;
+			let mut src = String::from(PRELUDE);
+			src.push_str(doc["definition"].as_str()?);
+			src.push_str(doc["model"].as_str()?);
+			let mut e = format!("Entry::new::<{t}>(\"{name}\").enc::<{t}>().dec::<{t}>().mem::<{t}>()");
+			if doc["derive_mel"] == true {
+				e.push_str(&format!(".mel::<{t}>()"));
+			}
+			src.push_str(&format!(
+				"\nfn main() {{\n\tuse psc_bridge::zoo::Entry;\n\tstd::process::exit(psc_checks::programs::child_main(vec![{e}]));\n}}\n"
+			));
+			let crate_name = format!("psc-gen-{}-replay", ctx.property.to_lowercase());
+			emit_runtime_crate(&dir, &crate_name, &[]);
+			write_file(&dir.join("src/main.rs"), &src);
+			let (ok, errors, _) = cargo_json(&dir, &["build", "--release", "--offline"], "src/main.rs");
+			if !ok {
+				return Some(Err(Violation::new(
+					doc["signature"].as_str().unwrap_or("C05/valid-definition-rejected").to_string(),
+					format!("does not compile: {}", errors.iter().map(|e| e.message.clone()).take(3).collect::<Vec<_>>().join(" | ")),
+				)));
+			}
+			let out = run_program(&gen_target().join("release").join(&crate_name), doc["seed"].as_u64().unwrap_or(1), doc["values"].as_u64().unwrap_or(40), None, &[]);
+			if let Some((_, how)) = out.crashed {
+				return Some(Err(Violation::new(doc["signature"].as_str().unwrap_or("C05/crash").to_string(), format!("the program dies: {how}"))));
+			}
+			if let Some((_, sig, detail)) = out.failures.into_iter().next() {
+				return Some(Err(Violation::new(sig, detail)));
+			}
+			Some(Ok(()))
+		},
+		_ => None,
+	}
+}
